@@ -2,6 +2,7 @@ package mc
 
 import (
 	"crypto/sha256"
+	"encoding/json"
 	"encoding/hex"
 	"fmt"
 	"sort"
@@ -122,7 +123,11 @@ func (w *World) StateKey() string {
 		sort.Strings(d)
 		var st []string
 		for rid, r := range c.Client.Store {
-			st = append(st, rid+":"+r.Kind+fmt.Sprint(r.Deleted))
+			// the client's copy is part of the state: two states that differ
+			// only in a (stale) client copy have different futures for C01
+			mb, _ := json.Marshal(r.M)
+			cb, _ := json.Marshal(r.C)
+			st = append(st, rid+":"+r.Kind+fmt.Sprint(r.Deleted)+":"+r.Err+":"+CanonJSON(mb)+CanonJSON(cb))
 		}
 		sort.Strings(st)
 		var p []string
